@@ -2,6 +2,7 @@
 import Driver.PathFam
 import Driver.ForestFam
 import Driver.Level2Fam
+import Driver.Level2FFam
 import Driver.KernFam
 import Driver.MeshFam
 import Driver.DispFam
@@ -31,6 +32,7 @@ def stepLine (st : St) (line : String) : St × String :=
     let (p, out) := ForestFam.step st.forest (line.drop 7).toString
     ({ st with forest := p }, out)
   | "level2" :: _ => (st, Level2Fam.step (line.drop 7).toString)
+  | "level2f" :: _ => (st, Level2FFam.step (line.drop 8).toString)
   | "kern" :: _ => (st, KernFam.step (line.drop 5).toString)
   | "mesh" :: _ => (st, MeshFam.step (line.drop 5).toString)
   | "valid" :: _ => (st, ValidFam.step (line.drop 6).toString)
